@@ -416,7 +416,7 @@ func ScriptOutcome(kind string, script []string, http bool) (class string, meta 
 				meta = status
 			}
 			stop = true
-		case "panicPlain", "panicStr", "panic42":
+		case "panicPlain", "panicStr", "panic42", "panicNilErr":
 			if !replied {
 				replied = true
 				class = "error:system.internalError"
